@@ -104,7 +104,16 @@ def evaluate(case):
                 o, e = s.feed_line(l)
                 out += o
             check_view(out, expected, t0, case, V, 'live')
-            # a listing in between must not leak its last time into the live view: list, then one more shown message
+            if case.get('then_list'):
+                # listings after a filtered live view: the live view's last time must not leak into a listing
+                # (a separator belongs between two messages of one listing, never under its header)
+                hidden = [t for (t, v), l in zip(meta, lines) if not v and '.poke(' in l]
+                o, e = s.cmd('list zz_h.poke')
+                check_view(o, hidden, t0, case, V, 'list after live')
+                o, e = s.cmd('list *')
+                check_view(o, [t for t, _ in meta], t0, case, V, 'list * after live')
+                o, e = s.cmd('list ' + filter_text(case))
+                check_view(o, expected, t0, case, V, 'list of the live filter')
         else:
             s = sut.Session()
             for l in lines:
@@ -134,6 +143,11 @@ def gen_cases(tier):
                     for view in ('live', 'list'):
                         yield {'gaps': list(gaps), 'visible': list(vis), 'shift': shift, 'dialect': dialect,
                                'view': view, 'conns': 1, 'prelude_shown': False}
+    for gaps in itertools.product(GAPS_US, repeat=n):
+        for vis in itertools.product((True, False), repeat=n):
+            for shift in shifts[:2]:
+                yield {'gaps': list(gaps), 'visible': list(vis), 'shift': shift, 'dialect': 'mid',
+                       'view': 'live', 'conns': 1, 'prelude_shown': False, 'then_list': True}
     # two connections (tags need the current dialect) and a shown prelude, on a reduced gap set
     for gaps in itertools.product(GAPS_US, repeat=n):
         for vis in itertools.product((True, False), repeat=n):
